@@ -1174,6 +1174,27 @@ func buildAtlas(c atlasCase, o *kit.Obs) (*atlas, error) {
 		o.Skip("border-too-large-for-layout")
 		return nil, nil
 	}
+	// joining charts makes a new map: every chart handed in is still its own chart afterwards
+	sizes := make([]int, len(a.in))
+	for i, m := range a.in {
+		sizes[i] = len(m)
+	}
+	joined := model3d.JoinMeshUVMaps(a.in...)
+	total := 0
+	for i, m := range a.in {
+		if len(m) != sizes[i] {
+			return nil, fmt.Errorf("JoinMeshUVMaps changed chart %d of its arguments from %d to %d faces", i, sizes[i], len(m))
+		}
+		total += sizes[i]
+		for tri, uv := range m {
+			if got, ok := joined[tri]; !ok || got != uv {
+				return nil, fmt.Errorf("JoinMeshUVMaps: a face of chart %d is missing from the joined map or has other coordinates", i)
+			}
+		}
+	}
+	if len(joined) != total {
+		return nil, fmt.Errorf("JoinMeshUVMaps of charts with %d faces in total has %d faces", total, len(joined))
+	}
 	return a, a.b.unchanged()
 }
 
